@@ -655,8 +655,21 @@ func (fv *FuncVC) callContract(call *ast.CallExpr, fi *FuncInfo, recv *Val, args
 	fv.lockSnap = snap
 	for _, c := range fc.Ensures {
 		sc := fv.calleeScope(fi, st, pre, bind, resBind)
-		g := fv.specBool(c.Expr, sc)
-		fv.addFact(st, g)
+		// a postcondition that speaks about the callee's locals (exit assertions) means nothing to the caller
+		func() {
+			defer func() {
+				if r := recover(); r != nil {
+					if se, ok := r.(specErr); ok && strings.Contains(string(se), "unknown identifier") {
+						return
+					}
+					panic(r)
+				}
+			}()
+			nf := len(fv.facts)
+			g := fv.specBool(c.Expr, sc)
+			fv.facts = fv.facts[:nf]
+			fv.addFact(st, g)
+		}()
 	}
 	fv.lockSnap = savedSnap
 	return results
